@@ -260,6 +260,8 @@ PROPS = {
              "timeout": 300, "extra_modules": ["tokenizer"], "max_steps": 3000000, "quick": n <= 2}
             for n in (2, 3)
         ] + [
+            {"engine": "E2", "module": "lib", "harness": "h_write_with_banner", "functions": ["A2lFile::write", "load", "A2lFile::write_to_string"],
+             "bound": "write(path, banner) for documents starting with a token / an empty line / a comment x banner {none, plain, with quote and slash}: the written file loads to an equal model (9 cases; std::fs::write modelled by the virtual file system)", "timeout": 300, "extra_modules": ["tokenizer"], "must_cover": ["write_with_banner_end"], "validate": 9},
             {"engine": "E2", "module": "lib", "harness": "h_api_built_model", "functions": ["new", "specification::*::new (constructor defaults)", "A2lFile::write_to_string", "load_from_string", "generated PartialEq impls"],
              "bound": "one model built with new() / T::new() / push / field edits (RECORD_LAYOUT, COMPU_METHOD with COEFFS, MEASUREMENT with six kinds of sub-elements, CHARACTERISTIC, GROUP, FUNCTION; symbolic low address byte and symbol offset): write, strict reload equal (== and field by field), second write identical; then three edits and the same again", "timeout": 600, "extra_modules": ["tokenizer"], "max_steps": 60000000, "must_cover": ["api_built_model_end"]},
             {"engine": "E2", "module": "lib", "harness": "h_sort_new_many_children", "msg_prefix": "C01", "functions": ["A2lFile::sort_new_items", "A2lFile::write_to_string", "load_from_string"],
@@ -526,11 +528,13 @@ PROPS = {
     "C18": {
         "files": ["a2lfile/src/a2ml.rs", "a2lfile/src/ifdata.rs", "a2lfile/src/specification.rs", "a2lfile/src/lib.rs", "a2lfile/src/tokenizer.rs"],
         "trusted": T_STD,
-        "assumptions": ["eight A2ML definitions (struct with all scalar kinds / array / enum, taggedunion with block sequence, taggedstruct with repeated and optional members, arrays + 64 bit scalars, named struct reference, plain taggedunion, taggedunion nested in a struct, signed scalars) each with one conforming instance and one single-token deviation, LF and CRLF line ends; definition supplied in-file only",
+        "assumptions": ["eight A2ML definitions (struct with all scalar kinds / array / enum, taggedunion with block sequence, taggedstruct with repeated and optional members, arrays + 64 bit scalars, named struct reference, plain taggedunion, taggedunion nested in a struct, signed scalars) each with one conforming instance and one single-token deviation, LF and CRLF line ends; definition supplied in-file, and (LF only) as built-in specification",
                         "'all A2ML definitions' is not claimed - the set is a fixed bounded family"],
         "jobs": [
             {"engine": "E2", "module": "lib", "harness": "h_ifdata_definitions", "msg_prefix": "C18", "functions": ["load_from_string", "tokenizer::handle_a2ml", "a2ml::parse_a2ml", "ifdata::parse_ifdata", "ifdata::parse_ifdata_from_spec", "ifdata::parse_ifdata_item", "ifdata::parse_ifdata_taggedstruct", "ifdata::parse_unknown_ifdata_start", "a2ml::GenericIfData::write", "A2lFile::ifdata_cleanup"],
              "bound": "8 definitions x {conforming, deviating} x {LF, CRLF} (deviations incl. two members in a taggedunion; signed scalars in hex with the sign bit set)", "timeout": 400, "extra_modules": ["tokenizer"], "validate": 20},
+            {"engine": "E2", "module": "lib", "harness": "h_ifdata_builtin_spec", "functions": ["load_from_string (a2ml_spec argument)", "a2ml::parse_a2ml", "ifdata::parse_ifdata", "ifdata::parse_ifdata_from_spec", "A2lFile::ifdata_cleanup"],
+             "bound": "8 definitions supplied as built-in specification x {conforming, deviating} instance; an invalid built-in specification is an error", "timeout": 400, "extra_modules": ["tokenizer"], "must_cover": ["ifdata_builtin_spec_end"], "validate": 16},
             {"engine": "E2", "module": "lib", "harness": "h_ifdata_empty_sequence", "functions": ["ifdata::parse_ifdata_item"],
              "bound": "3 definitions whose sequence element can match zero tokens, one IF_DATA block: loading terminates", "timeout": 300, "extra_modules": ["tokenizer"], "max_steps": 600000},
         ],
